@@ -159,6 +159,12 @@ def default_cases(pid):
                                  {"name": "model", "files": [{"path": "mu.o"}], "include_if_any": [["version", "us"]]},
                                  {"name": "other", "files": [{"path": "o.o"}]},
                                  {"name": "anims", "follows_segment": "model", "files": [{"path": "an.o"}]}]}),
+        # round 12: a segment switches `wildcard_sections` off under the global default, and one configured section name is a
+        # prefix of another: with a `*` the first group would swallow the inputs of the second
+        ("normal", {"segments": [{"name": "main", "fixed_vram": 0x80000400, "wildcard_sections": False,
+                                  "alloc_sections": [".text", ".data", ".data.hires", ".rodata"], "noload_sections": [".bss", ".bss.big"],
+                                  "files": [{"path": "a.o"}, {"path": "b.o"}]},
+                                 {"name": "other", "files": [{"path": "c.o"}]}]}),
         # round 9: a start alignment equal to the end alignment of an earlier segment, with a segment in between that has
         # no end alignment (a "redundant" alignment is not redundant then); three sizes of the middle segment
         ("normal", {"settings": {"segment_end_align": 0x10},
@@ -593,6 +599,20 @@ class C12(Property):
                 out.append({"id": "dpath-target-%d" % k, "seed": 5, "stream": "valid", "opts": [], "mode": mode, "version_comment": False,
                             "link": False, "doc": doc})
                 k += 1
+        # absolute paths replace the `base_path` / `dir` prefix: they are prerequisites like any other referenced file
+        for mode in ("normal", "partial"):
+            for base in ("build", ""):
+                st = {"base_path": base, "target_path": "rom.elf", "d_path": "rom.d"}
+                if mode == "partial":
+                    st.update({"partial_scripts_folder": "ps", "partial_build_segments_folder": "pb"})
+                doc = {"settings": st, "segments": [
+                    {"name": "boot", "fixed_vram": 0x80000400, "files": [{"path": "a.o"}, {"path": "/opt/prebuilt/rt.o"},
+                                                                         {"path": "/opt/tc/libgcc.a", "subfile": "_div.o"},
+                                                                         {"path": "/opt/tc/libgcc.a", "subfile": "_mul.o"}]},
+                    {"name": "main", "dir": "/abs/main", "files": [{"path": "b.o"}, {"kind": "group", "dir": "/abs/g", "files": [{"path": "c.o"}]},
+                                                                    {"kind": "group", "dir": "rel", "files": [{"path": "/abs/d.o"}, {"path": "e.o"}]}]}]}
+                out.append({"id": "abs-paths-%s-%d" % (mode[0], len(base)), "seed": 6, "stream": "valid", "opts": [], "mode": mode,
+                            "version_comment": False, "link": False, "doc": doc})
         return out
 
     def tweak(self, r, c):
@@ -935,6 +955,26 @@ class C07(Property):
                     doc = {"settings": st, "segments": [seg]}
                     cases.append({"id": "br%d" % i, "seed": i, "stream": "lattice:braces", "doc": doc, "opts": optset,
                                   "mode": "partial" if i % 2 else "normal", "version_comment": False, "out": "o/" + comp + ".ld"})
+        # `..` and `.` components are part of the path as written: nothing is dropped or resolved
+        for j, (fld, val) in enumerate((("base_path", "build/../out"), ("base_path", "../build"), ("seg_dir", "../sd"), ("seg_dir", "a/../b"),
+                                        ("group_dir", "../prebuilt"), ("group_dir", "x/../../y"), ("path", "../lib/libc.a"), ("path", "a/./b.o"),
+                                        ("target_path", "../t.elf"), ("d_path", "../d/t.d"), ("partial_build_segments_folder", "../pb"),
+                                        ("group_dir", "{a}/.."), ("path", "../{a}/x.o"))):
+            for mode in ("normal", "partial"):
+                st = {"base_path": "build", "target_path": "t.elf", "d_path": "t.d", "symbols_header_path": "h/s.h",
+                      "partial_scripts_folder": "ps", "partial_build_segments_folder": "pb"}
+                grp = {"kind": "group", "dir": "g", "files": [{"path": "in.o"}, {"path": "lib.a", "subfile": "m.o"}]}
+                seg = {"name": "main", "dir": "sd", "files": [{"path": "top.o"}, grp]}
+                if fld in st:
+                    st[fld] = val
+                elif fld == "seg_dir":
+                    seg["dir"] = val
+                elif fld == "group_dir":
+                    grp["dir"] = val
+                else:
+                    grp["files"][0]["path"] = val
+                cases.append({"id": "dots%d%s" % (j, mode[0]), "seed": 900 + j, "stream": "lattice:dots", "doc": {"settings": st, "segments": [seg]},
+                              "opts": [["a", "us"]], "mode": mode, "version_comment": False})
         return cases
 
 
@@ -1230,6 +1270,23 @@ class C17(Property):
                    "asserts": [{"check": "boot_VRAM_END <= 0x80400000", "error_message": m} for m in msgs]}
             out.append({"id": "assert-text-%d" % k, "seed": 3, "stream": "valid", "opts": [], "mode": mode, "version_comment": False,
                         "link": False, "doc": doc})
+        # several segments with a gp_info, each restricted to its own build: `_gp` is defined by the included one, wherever
+        # it stands in the document (the condition on the gp_info, or on the whole segment); also with a hardcoded value in partial mode
+        for k, (opts, where) in enumerate(((v, wh) for v in ([["version", "us"]], [["version", "eu"]], [["version", "jp"]]) for wh in ("gp", "segment"))):
+            for mode in ("normal", "partial"):
+                st = {"partial_scripts_folder": "ps", "partial_build_segments_folder": "pb"} if mode == "partial" else {}
+                segs = [{"name": "boot", "fixed_vram": 0x80000400, "files": [{"path": "a.o"}]}]
+                for ver in ("us", "eu"):
+                    sg = {"name": "sdata_" + ver, "files": [{"path": ver + ".o"}], "gp_info": {"section": ".sdata", "offset": 0x10}}
+                    (sg["gp_info"] if where == "gp" else sg)["include_if_any"] = [["version", ver]]
+                    segs.append(sg)
+                out.append({"id": "two-gp-%d%s" % (k, mode[0]), "seed": 4, "stream": "valid", "opts": opts, "mode": mode, "version_comment": False,
+                            "link": False, "doc": {"settings": st, "segments": segs}})
+        for k, single in enumerate((False, True)):
+            st = {"partial_scripts_folder": "ps", "partial_build_segments_folder": "pb", "hardcoded_gp_value": 0x800E4090}
+            segs = [{"name": "boot", "fixed_vram": 0x80000400, "files": [{"path": "a.o"}]}] + ([] if single else [{"name": "main", "files": [{"path": "b.o"}]}])
+            out.append({"id": "hard-gp-partial-%d" % k, "seed": 5, "stream": "valid", "opts": [], "mode": "partial", "version_comment": False,
+                        "link": False, "doc": {"settings": st, "segments": segs}})
         return out
 
     def nontrivial(self, c):
@@ -1740,6 +1797,20 @@ class C20(Property):
         """an output location that accepts the open and refuses the data (/dev/full): the error must reach the exit status"""
         import os
         out = []
+        # --partial-linking on a document without the partial folders: the tool fails (it does not fall back to an ordinary script)
+        j = 0
+        for have in ((), ("partial_scripts_folder",), ("partial_build_segments_folder",)):
+            for outp in (None, "outdir", "s.ld"):
+                st = {"base_path": "build", "target_path": "rom.elf", "d_path": "rom.d"}
+                for f in have:
+                    st[f] = "pf"
+                c = {"id": "cli-nofolder%d" % j, "seed": 50 + j, "stream": "valid", "opts": [], "cli_opts": [], "cli_long": [], "mode": "partial",
+                     "version_comment": j % 2 == 0, "prior": "absent",
+                     "doc": {"settings": st, "segments": [{"name": "boot", "files": [{"path": "a.o"}]}, {"name": "main", "files": [{"path": "b.o"}]}]}}
+                if outp:
+                    c["out"] = outp
+                out.append(c)
+                j += 1
         if not os.path.exists("/dev/full"):
             return out
         k = 0
@@ -2227,6 +2298,16 @@ class C10(ImageProperty):
                                     {"name": "ovl_a", "vram_class": "ovl", "files": [{"path": "o.o"}]}]}
                 out.append({"id": "classcombo%d%s" % (mask, mode[0]), "seed": 60 + mask, "stream": "valid", "opts": [], "mode": mode,
                             "version_comment": False, "link": False, "doc": doc})
+        # a segment naming a class that is not declared makes generation fail, whatever the name (the empty one included)
+        for nm in ("", "nosuch", " "):
+            for mode in ("normal", "partial"):
+                st = {"partial_scripts_folder": "ps", "partial_build_segments_folder": "pb"} if mode == "partial" else {}
+                doc = {"settings": st, "vram_classes": [{"name": "common", "fixed_vram": 0x80080000}],
+                       "segments": [{"name": "boot", "fixed_vram": 0x80000400, "files": [{"path": "a.o"}]},
+                                    {"name": "common_a", "vram_class": "common", "files": [{"path": "c.o"}]},
+                                    {"name": "ovl_b", "vram_class": nm, "files": [{"path": "o.o"}]}]}
+                out.append({"id": "undeclared%d%s" % (len(nm) + (2 if nm == " " else 0), mode[0]), "seed": 80 + len(nm), "stream": "valid", "opts": [],
+                            "mode": mode, "version_comment": False, "link": False, "doc": doc})
         return ImageProperty.extra_cases(self, tier) + out
     rule = ("linkable documents with 1-3 classes of the three kinds, follow DAGs whose dependencies precede, members interleaved with "
             "non-members, classes with no or only excluded members, undeclared classes on emitted and on excluded segments, both modes; a third "
@@ -2422,6 +2503,17 @@ class C11(Property):
                 out.append({"id": "nofolder%d" % k, "seed": 40 + k, "stream": "valid", "opts": opts, "mode": "partial", "version_comment": False,
                             "link": False, "doc": {"settings": st, "segments": copy.deepcopy(segs)}})
                 k += 1
+        # an excluded segment is not looked at: one that could not be processed under these options (a {key} only the builds
+        # that include it provide, a section_order cycle) does not make partial-mode generation fail
+        for j, bad in enumerate(({"name": "dbg", "dir": "src/{flavor}", "files": [{"path": "d.o"}]},
+                                 {"name": "dbg", "files": [{"kind": "group", "dir": "{flavor}", "files": [{"path": "{flavor}/d.o"}]}]},
+                                 {"name": "dbg", "files": [{"path": "d.o", "section_order": {".text": ".data", ".data": ".text"}}]})):
+            seg = dict(copy.deepcopy(bad), include_if_any=[["debug", "on"]])
+            doc = {"settings": {"base_path": "build", "partial_scripts_folder": "ps", "partial_build_segments_folder": "pb"},
+                   "segments": [{"name": "boot", "fixed_vram": 0x80000400, "files": [{"path": "a.o"}]}, seg,
+                                {"name": "main", "files": [{"path": "b.o"}]}]}
+            out.append({"id": "excluded-unprocessable%d" % j, "seed": 70 + j, "stream": "valid", "opts": [["version", "us"]], "mode": "partial",
+                        "version_comment": False, "link": False, "doc": doc})
         return out
 
     def make_case(self, seed, idx):
@@ -2455,6 +2547,13 @@ class C11(Property):
                         res.update(status="violation", why="a missing partial folder is an error for the file exports (%s, %s a dependency file), "
                                    "but the export reports success" % ("script to a file" if out else "script to standard output", "with" if dpath else "without"))
                         return res
+        if res["status"] == "skip" and v.get("model_outcome") == "ok" and implP.get("outcome") not in ("ok", "panic", "abort", "timeout"):
+            # "for all accepted documents": the ordinary writer accepts the document and the model of partial mode does too
+            implN = w.h.run(impl_request(dict(c, mode="normal", id=c["id"] + ":normal")))
+            if implN.get("outcome") == "ok":
+                res.update(status="violation", why="partial-mode generation fails (%s) for a document that ordinary generation accepts and whose "
+                           "partial-mode generation the model accepts: no partial script for its emitted segments" % implP.get("err_kind"))
+            return res
         if res["status"] not in ("ok", "corr") or implP.get("outcome") != "ok":
             return res
         cn = dict(c, mode="normal", id=c["id"] + ":normal")
